@@ -8,6 +8,8 @@ import JominiModel.Proofs.TextTapeFaithful3
 import JominiModel.Proofs.WriterArraysTape
 import JominiModel.Proofs.WriterGenTape
 import JominiModel.Proofs.WriterJ
+import JominiModel.Proofs.WriterFullWalk
+import JominiModel.Proofs.WriterFullParse
 /-
 C14 — Writing a parsed tape and re-parsing reproduces the same structure; writing is idempotent.
 Only property theorems live here; helper lemmas are in `Proofs/Writer.lean`.
@@ -390,9 +392,113 @@ example : ∃ T₀ s T, TextTape.parse (TextTape.jrenderF TextTape.exampleTree +
     rw [h2] at this
     simpa [Except.toOption] using this
 
+/-- **C14 over the text-tape slice's FULL document type** (`FFields`, Spec/TextDocFull.lean): the
+shapes of `C14_nested_roundtrip` plus the ones the property text names and `JFields` left out —
+parameter blocks (`[[p] k = v … ]` object-valued, `[[p] v ]` scalar-valued, `[[!p] …`), arrays that
+turn into key-value lists (`{ 10 0=2 1=2 }`, `{ { a } 1 2=3 }`) whose array part holds scalars,
+operator groups and containers (objects, arrays, nested mixed arrays), header fields and parameter
+blocks as first field of an object.  For EVERY `d : FFields` under every valid layout (`FValidF d gt`)
+that is `FPlainF` (Spec/WriterFull.lean), every indent factor and blank indent byte:
+
+  * `parse` the text, `write_tape` the tape, `parse` what was written: the second tape equals the
+    first modulo scalar positions, and
+  * `write_tape` of the re-parsed tape produces exactly the same bytes (idempotence).
+
+Proof: the index walk of `write_tape` over the tape of ANY document computes `semF`
+(Proofs/WriterFullWalk.lean, no exclusion needed); for a preserved document the bytes `semF` writes are
+the rendering of the same document under the writer's own layout `wlayF` (Proofs/WriterFullBytes.lean,
+with the mixed-mode machine state tracked through nested containers); that layout is valid and has the
+same content (Proofs/WriterFullParse.lean); `C01_faithful_full` reads it back.
+
+Exclusions (`FPlainF`, `hb'`) — exactly the recorded findings, the shape the property's quantifier
+leaves out, and three shapes found while proving this theorem (each witnessed on the real code with
+`x-wtape` and reported):
+  1. `roundtrip-param-scalar`: a scalar-valued parameter block followed by another field — precisely:
+     the block is not the last thing before a `}` / the end of the document, where `]` of enclosing
+     object-valued blocks do not count (`openEnd`);
+  2. `roundtrip-mixed-nested-operator`: a non-`=` operator of an object field while the mixed mode of
+     an enclosing mixed array is still on, i.e. before the first `write_end` behind the
+     `MixedContainer` token (the window `w` of `FPlainF`);
+  3. `roundtrip-bom-key` (`hb'`);
+  4. `roundtrip-empty-first-element` / `roundtrip-header-empty-body` (`emptyC`);
+  5. an object that continues as a bare value list (`FVal.mixed`): outside the property's quantifier;
+  6. NEW `[[p] v ] { … }` (`FFields.paramHdr`): written as `[[p] v { … }]`, read back as an
+     object-valued block;
+  7. NEW two adjacent operator tokens in the array part written in mixed mode (`gluesOp`):
+     `{ 1 b = = c }` is written `b==c`;
+  8. NEW the bare scalar `?` followed by `=` / `==` directly behind the first element (`bareQuestion`):
+     `{ 1 ? = b }` is written `1 ?=b`, read back as the object `1 ?= b`. -/
+theorem C14_roundtrip_full (d : TextTape.FFields) (gt : Bytes) (c : UInt8) (f : Nat)
+    (hc : TextTape.isBlank c = true) (hgt : TextTape.Blank gt) (hv : TextTape.FValidF d gt)
+    (hplain : FPlainF false d) (hb : TextTape.hasBom (TextTape.frenderF d ++ gt) = false)
+    (hb' : ∀ T₀ s, TextTape.parse (TextTape.frenderF d ++ gt) = .ok T₀ false →
+      writeTape (T₀.map ofTT) (State.init c f) = .ok s → TextTape.hasBom s.out = false) :
+    ∃ T₀ s T, TextTape.parse (TextTape.frenderF d ++ gt) = .ok T₀ false ∧
+      writeTape (T₀.map ofTT) (State.init c f) = .ok s ∧
+      TextTape.parse s.out = .ok T false ∧
+      T.map TextTape.Tok.erase = T₀.map TextTape.Tok.erase ∧
+      writeTape (T.map ofTT) (State.init c f) = .ok s := by
+  obtain ⟨T₀, hp0, he0⟩ := TextTape.faithful_full d gt hgt hv hb
+  have htape : T₀.map ofTT = tF d 0 := by rw [← map_ofTT_erase, he0]; rfl
+  have hw := writeTape_full d (State.init c f)
+  have hout := bytes_full c f d hplain
+  have hbom := hb' T₀ _ hp0 (by rw [htape]; exact hw)
+  rw [hout] at hbom
+  obtain ⟨T, hp, he⟩ := parse_wlay c f hc d gt hv hplain hbom
+  refine ⟨T₀, semF d (State.init c f), T, hp0, by rw [htape]; exact hw, by rw [hout]; exact hp, by rw [he, he0], ?_⟩
+  rw [← map_ofTT_erase, he, ← he0, map_ofTT_erase, htape]
+  exact hw
+
+/-- `d={⏎  10 d=e⏎}` (an array that turns into a key-value list, laid out as the writer does): every
+hypothesis of `C14_roundtrip_full` holds -/
+example : ∃ T₀ s T,
+    TextTape.parse (TextTape.frenderF (WriterParse.mixedLay 32 2
+      ⟨.unq [100], .unq [49, 48], [], [(.unq [100], .eq, .unq [101])]⟩) ++ []) = .ok T₀ false ∧
+    writeTape (T₀.map ofTT) (State.init 9 1) = .ok s ∧ TextTape.parse s.out = .ok T false ∧
+    T.map TextTape.Tok.erase = T₀.map TextTape.Tok.erase ∧ writeTape (T.map ofTT) (State.init 9 1) = .ok s := by
+  have u : ∀ b : Bytes, (∀ x ∈ b, safeByte x = true) → b ≠ [] → (SCall.unq b).ValidX :=
+    fun b h hne => Or.inl (valid_of_safe b hne h)
+  have hgood : MixedDoc.Good ⟨.unq [100], .unq [49, 48], [], [(.unq [100], .eq, .unq [101])]⟩ := by
+    refine ⟨u _ (by decide +kernel) (by simp), u _ (by decide +kernel) (by simp), by simp, ?_, by simp [SCall.scal, TextTape.Scal.text]⟩
+    intro p hp
+    simp at hp
+    subst hp
+    exact ⟨u _ (by decide +kernel) (by simp), by simp, u _ (by decide +kernel) (by simp)⟩
+  have hv := WriterParse.valid_mixedLay 32 2 (by decide +kernel) _ hgood
+  refine C14_roundtrip_full _ [] 9 1 (by decide +kernel) .nil hv ?_ (by decide +kernel) ?_
+  · simp [WriterParse.mixedLay, WriterParse.elemVals, WriterParse.pairItems, FPlainF, FPlainV, FPlainVs, FPlainI,
+      bareQuestion, gluesOp, closesV, SCall.scal, TextTape.Scal.text]
+  · intro T₀ s h1 h2
+    rw [TextTape.parse_full _ [] .nil hv (by decide +kernel)] at h1
+    cases h1
+    have : (writeTape ((TextTape.ftapeF (WriterParse.mixedLay 32 2
+        ⟨.unq [100], .unq [49, 48], [], [(.unq [100], .eq, .unq [101])]⟩) 0 []).map ofTT) (State.init 9 1)).toOption.map
+        (fun s => TextTape.hasBom s.out) = some false := by decide +kernel
+    rw [h2] at this
+    simpa [Except.toOption] using this
+
+/-- an object-valued and a trailing scalar-valued parameter block, a header field, an array that turns
+mixed with an object in its array part (`a={ [[p] k=v ] b=rgb{1} c={ 1 x=y { z=w } } [[q] r ] }`):
+the conclusion of `C14_roundtrip_full` — parse, write, parse again, same tape up to positions —,
+computed on the models -/
+example :
+    (match TextTape.parse [97, 61, 123, 32, 91, 91, 112, 93, 32, 107, 61, 118, 32, 93, 32, 98, 61, 114, 103, 98, 123,
+        49, 125, 32, 99, 61, 123, 32, 49, 32, 120, 61, 121, 32, 123, 32, 122, 61, 119, 32, 125, 32, 125, 32, 91, 91,
+        113, 93, 32, 114, 32, 93, 32, 125] with
+     | .ok T₀ false =>
+       (match writeTape (T₀.map ofTT) (State.init 32 2) with
+        | .ok s =>
+          (match TextTape.parse s.out with
+           | .ok T false => decide (T.map TextTape.Tok.erase = T₀.map TextTape.Tok.erase ∧ T₀.length = 27)
+           | _ => false)
+        | _ => false)
+     | _ => false) = true := by
+  decide +kernel
+
 /-
-Growth theorem, NOT proved beyond flat documents and nested objects (full statement kept;
-`C14_nested_roundtrip` proves it for every `JFields` document outside the listed exclusions;
+Growth theorem (full statement kept).  `C14_roundtrip_full` proves it for every document of the
+text-tape slice's full document type `FFields` outside the listed exclusions (parameter blocks and
+arrays that turn into key-value lists included); `C14_nested_roundtrip` is its `JFields` instance;
 `C14_roundtrip_flat`, `C14_roundtrip_nested`, `C14_roundtrip_arrays` and `C14_roundtrip_containers`
 are its earlier instances; parameter blocks and mixed containers — where the two known findings live — are decided
 by the L3 oracle on the real code):
